@@ -535,10 +535,13 @@ func (fr *Frame) lockCheck(a Val, write bool) {
 	if a.Src == nil || a.Src.kind != "field" || len(e.guards) == 0 {
 		return
 	}
-	g := e.guards[a.Src.skey+"."+a.Src.fname]
-	if g == nil {
-		return
+	for _, g := range e.guards[a.Src.skey+"."+a.Src.fname] {
+		fr.lockCheck1(a, write, g)
 	}
+}
+
+func (fr *Frame) lockCheck1(a Val, write bool, g *GuardSpec) {
+	e := fr.e
 	acc := "read"
 	if write {
 		acc = "write"
@@ -561,7 +564,14 @@ func (fr *Frame) lockCheck(a Val, write bool) {
 			e.unsupported = append(e.unsupported, fmt.Sprintf("%s: protects clause of %s: %v", fr.prefix, g.Type, err))
 			return
 		}
-		fr.oblige("lock", acc+"("+a.Src.skey+"."+a.Src.fname+")", sOr(t, "(> "+a.Src.base+" "+e.alloc0+")"))
+		kind := "lock"
+		if g.Group != "" && g.Group != "lock" {
+			kind = g.Group
+		}
+		if t == "true" {
+			return
+		}
+		fr.oblige(kind, acc+"("+a.Src.skey+"."+a.Src.fname+")", sOr(t, "(> "+a.Src.base+" "+e.alloc0+")"))
 		return
 	}
 	held := e.comp("ghost$held", "(Array Int Bool)")
@@ -713,6 +723,16 @@ func (fr *Frame) callCommon(cc *ssa.CallCommon, args []Val, fv Val, res ssa.Valu
 	} else if fv.Clo != nil {
 		callee = fv.Clo.Fn
 		bindings = fv.Clo.Bindings
+	}
+	if callee == nil {
+		// call through a package-level function variable that is only ever set by its initialiser
+		if u, ok := cc.Value.(*ssa.UnOp); ok {
+			if g, ok := u.X.(*ssa.Global); ok {
+				if f := e.globalFunc(g); f != nil {
+					callee = f
+				}
+			}
+		}
 	}
 	if callee == nil {
 		fr.assertAtCall("dynamic", args, cc.Signature())
@@ -1008,10 +1028,29 @@ func (fr *Frame) applyContract(sp *FuncSpec, name string, sig *types.Signature, 
 	}
 	// modifies
 	if !sp.HasMod {
-		if e.topSpec != nil && e.topSpec.HasMod && !e.modAll {
-			fr.oblige("frame", "call("+short+")", "false")
+		if fn := e.fnByName[name]; fn != nil && e.inRepo(fn) {
+			// contract without a modifies clause on a repo function: frame from the body scan
+			mi := e.modOf(fn, map[*ssa.Function]bool{})
+			if mi.all {
+				if e.topSpec != nil && e.topSpec.HasMod && !e.modAll {
+					fr.oblige("frame", "call("+short+")", "false")
+				}
+				fr.cur.st = e.totalHavoc(fr.cur.st)
+			} else {
+				for _, c := range sortedKeys(mi.comps) {
+					fr.checkFrame(c, "", "call:"+short)
+					e.havocComp(fr.cur.st, c)
+				}
+				if mi.allocs {
+					fr.bumpAlloc()
+				}
+			}
+		} else {
+			if e.topSpec != nil && e.topSpec.HasMod && !e.modAll {
+				fr.oblige("frame", "call("+short+")", "false")
+			}
+			fr.cur.st = e.totalHavocG(fr.cur.st, false)
 		}
-		fr.cur.st = e.totalHavoc(fr.cur.st)
 	} else {
 		for _, m := range sp.Modifies {
 			fr.applyModifies(m, sp, sig, env, args, short)
@@ -1070,7 +1109,7 @@ func (fr *Frame) applyModifies(m string, sp *FuncSpec, sig *types.Signature, env
 		if e.topSpec != nil && e.topSpec.HasMod && !e.modAll {
 			fr.oblige("frame", "call("+short+")", "false")
 		}
-		fr.cur.st = e.totalHavoc(fr.cur.st)
+		fr.cur.st = e.totalHavocG(fr.cur.st, m == "heap")
 		return
 	}
 	gname := strings.SplitN(m, "[", 2)[0]
@@ -1524,4 +1563,45 @@ func (e *Engine) isLockGhost(c string) bool {
 		}
 	}
 	return false
+}
+
+// the function a package-level func variable is bound to, if its only assignment is in the package initialiser
+func (e *Engine) globalFunc(g *ssa.Global) *ssa.Function {
+	if g.Pkg == nil {
+		return nil
+	}
+	var found *ssa.Function
+	count := 0
+	var scan func(fn *ssa.Function)
+	scan = func(fn *ssa.Function) {
+		for _, b := range fn.Blocks {
+			for _, in := range b.Instrs {
+				if st, ok := in.(*ssa.Store); ok && st.Addr == ssa.Value(g) {
+					count++
+					switch v := st.Val.(type) {
+					case *ssa.Function:
+						found = v
+					case *ssa.MakeClosure:
+						if f, ok := v.Fn.(*ssa.Function); ok && len(v.Bindings) == 0 {
+							found = f
+						}
+					default:
+						count += 10
+					}
+				}
+			}
+		}
+		for _, a := range fn.AnonFuncs {
+			scan(a)
+		}
+	}
+	for _, m := range g.Pkg.Members {
+		if fn, ok := m.(*ssa.Function); ok {
+			scan(fn)
+		}
+	}
+	if count == 1 {
+		return found
+	}
+	return nil
 }
